@@ -123,3 +123,119 @@ macro_rules! cap_harness {
 }
 cap_harness!(c02_raw_cap, "C02.rawcap", tp::parse_tls_raw_record, |v| (&v.hdr, v.data));
 cap_harness!(c02_encrypted_cap, "C02.enccap", tp::parse_tls_encrypted, |v| (&v.hdr, v.msg.blob));
+
+// ------------------------------------------------------------------------------------------------
+// parse_tls_plaintext: framing with the content dispatcher replaced by a marker stub (rule R3).
+
+static mut SEEN_CALLS: u32 = 0;
+static mut SEEN_OFF_OK: bool = false;
+static mut SEEN_LEN: usize = 0;
+static mut SEEN_HDR: (u8, u16, u16) = (0, 0, 0);
+static mut BASE: usize = 0;
+static mut STUB_FAILS: bool = false;
+
+/// Marker stub for `parse_tls_record_with_header`: records exactly what it was handed.
+fn stub_record_with_header<'i>(
+    i: &'i [u8],
+    hdr: &tp::TlsRecordHeader,
+) -> IResult<&'i [u8], alloc::vec::Vec<tp::TlsMessage<'i>>> {
+    unsafe {
+        SEEN_CALLS += 1;
+        SEEN_OFF_OK = (i.as_ptr() as usize) == BASE + 5;
+        SEEN_LEN = i.len();
+        SEEN_HDR = (hdr.record_type.0, hdr.version.0, hdr.len);
+        if STUB_FAILS {
+            return Err(Err::Error(tp::nom::error::Error::new(i, ErrorKind::Tag)));
+        }
+    }
+    Ok((i, alloc::vec::Vec::new()))
+}
+
+#[kani::proof]
+#[kani::unwind(4)]
+#[kani::stub(tp::parse_tls_record_with_header, stub_record_with_header)]
+fn c02_plaintext_wiring() {
+    let buf: [u8; 12] = kani::any();
+    let n: usize = kani::any();
+    kani::assume(n <= 12);
+    let b = &buf[..n];
+    let fails: bool = kani::any();
+    unsafe {
+        BASE = b.as_ptr() as usize;
+        STUB_FAILS = fails;
+        SEEN_CALLS = 0;
+    }
+    let r = ManuallyDrop::new(tp::parse_tls_plaintext(b));
+    let calls = unsafe { SEEN_CALLS };
+    match ref_frame(b, 5) {
+        Frame::ShortHeader => {
+            vassert!(class(&r) == Class::Incomplete, "C02.plaintext.short_header.incomplete");
+            vassert!(calls == 0, "C02.plaintext.short_header.content_parser_not_run");
+        }
+        Frame::TooLarge => {
+            vassert!(err_kind(&r) == Some(ErrorKind::TooLarge) && class(&r) == Class::Error, "C02.plaintext.too_large.rejected");
+            vassert!(calls == 0, "C02.plaintext.too_large.content_parser_not_run");
+            vcover!(b.len() == 5, "C02.plaintext.cover.too_large_nothing_follows");
+        }
+        Frame::Short { missing } => {
+            vassert!(class(&r) == Class::Incomplete, "C02.plaintext.short.incomplete");
+            vassert!(needed(&r) == Some(missing), "C02.plaintext.short.needed_exact");
+            vassert!(calls == 0, "C02.plaintext.short.content_parser_not_run");
+            vcover!(missing > 1, "C02.plaintext.cover.short");
+        }
+        Frame::Ok { len } => {
+            vassert!(calls == 1, "C02.plaintext.ok.content_parser_run_once");
+            unsafe {
+                vassert!(SEEN_OFF_OK && SEEN_LEN == len, "C02.plaintext.ok.payload_isolated_exactly");
+                vassert!(SEEN_HDR == (b[0], be16(b, 1), len as u16), "C02.plaintext.ok.header_passed_verbatim");
+            }
+            if fails {
+                vassert!(class(&r) == Class::Error, "C02.plaintext.ok.content_error_propagates_as_error");
+                vcover!(true, "C02.plaintext.cover.content_error");
+            } else {
+                vassert!(class(&r) == Class::Ok, "C02.plaintext.ok.accepted");
+                if let Ok((rem, p)) = &*r {
+                    vassert!(p.hdr.record_type.0 == b[0], "C02.plaintext.ok.type");
+                    vassert!(p.hdr.version.0 == be16(b, 1), "C02.plaintext.ok.version");
+                    vassert!(p.hdr.len as usize == len, "C02.plaintext.ok.len");
+                    vassert!(is_sub(b, rem, 5 + len, b.len() - 5 - len), "C02.plaintext.ok.remainder_exact");
+                    vcover!(len > 0 && rem.len() > 0, "C02.plaintext.cover.ok_payload_and_rest");
+                }
+            }
+        }
+    }
+}
+
+// ------------------------------------------------------------------------------------------------
+// parse_tls_plaintext with the real content parsers: a complete record never answers Incomplete
+// (an inner parser's Incomplete must not leak), and Ok consumes exactly 5+len.
+
+macro_rules! plaintext_real {
+    ($name:ident, $ty:expr, $len:expr) => {
+        #[kani::proof]
+        #[kani::unwind(8)]
+        fn $name() {
+            const L: usize = $len;
+            let mut buf: [u8; 5 + L + 2] = kani::any();
+            buf[0] = $ty;
+            buf[3] = 0;
+            buf[4] = L as u8;
+            let b = &buf[..];
+            let r = ManuallyDrop::new(tp::parse_tls_plaintext(b));
+            vassert!(class(&r) != Class::Incomplete, "C02.plaintext.complete_record_never_incomplete");
+            if let Ok((rem, p)) = &*r {
+                vassert!(is_sub(b, rem, 5 + L, 2), "C02.plaintext.real.remainder_exact");
+                vassert!(p.hdr.len as usize == L && p.hdr.record_type.0 == $ty && p.hdr.version.0 == be16(b, 1),
+                         "C02.plaintext.real.header_exact");
+                vcover!(true, "C02.plaintext.real.cover.ok");
+            }
+        }
+    };
+}
+plaintext_real!(c02_plaintext_ccs_2, 0x14, 2);
+plaintext_real!(c02_plaintext_alert_3, 0x15, 3);
+plaintext_real!(c02_plaintext_appdata_2, 0x17, 2);
+plaintext_real!(c02_plaintext_heartbeat_0, 0x18, 0);
+plaintext_real!(c02_plaintext_heartbeat_2, 0x18, 2);
+plaintext_real!(c02_plaintext_heartbeat_3, 0x18, 3);
+plaintext_real!(c02_plaintext_heartbeat_5, 0x18, 5);
